@@ -6,8 +6,13 @@ use aidl_parser::diagnostic::{Diagnostic, DiagnosticKind};
 use aidl_parser::{ast, ParseFileResult, Parser};
 use std::collections::HashMap;
 
+pub mod astproj;
+pub mod docspace;
+pub mod rangecheck;
 pub mod seqspace;
+pub mod c02;
 pub mod c03;
+pub mod c04;
 pub mod c20;
 
 pub type Results = HashMap<String, ParseFileResult<String>>;
